@@ -747,7 +747,15 @@ func checkC05(args []string) {
 	}
 	sort.Strings(names)
 	// fault sequences from TLC
-	nfields := 72 // at least the field count of the largest base file (checked below)
+	nfields := 0 // the field count of the largest base file: every field of every base gets its own slot
+	for _, n := range names {
+		if !lay[n].OK {
+			vx.Fatal2("base file %s is not accepted by the strict reader: %s", n, lay[n].Why)
+		}
+		if fs, _ := fieldsFromLayout(lay[n], bases[n]); len(fs) > nfields {
+			nfields = len(fs)
+		}
+	}
 	gen := vx.MustTLC(vx.TLCOpts{Module: "Fault", Cfg: fmt.Sprintf("SPECIFICATION Spec\nCONSTANTS NFIELDS = %d\nMAXFAULTS = 1\nCHECK_DEADLOCK FALSE\n", nfields), Workers: 1, Timeout: 20 * time.Minute})
 	run.AddTLC(gen)
 	sim := vx.MustTLC(vx.TLCOpts{Module: "Fault", Cfg: fmt.Sprintf("SPECIFICATION Spec\nCONSTANTS NFIELDS = %d\nMAXFAULTS = 2\nCHECK_DEADLOCK FALSE\n", nfields), Workers: 1,
